@@ -1,6 +1,6 @@
 """C20 - bundled generators return exactly the requested bits, reproducibly (bit-width proof, purity, constants)."""
 from __future__ import annotations
-import ast
+import ast, re
 from pcstatic import sym, bitwidth, fold
 from pcstatic.core import Incomplete
 from pcstatic.loader import norm, Cls
@@ -51,6 +51,51 @@ def run(ctx):
   ctx.expect("R-C20-CONST", 8, "Java + truncated LCG clauses")
 
 
+def instances(repo, c):
+  """[(registry name, {attribute: int})] for the instances of class c in RNGS: constructor defaults and arguments folded, attributes read off __init__."""
+  m = repo.mod(MOD)
+  node = m.consts.get("RNGS")
+  init = repo.find_method(c, "__init__")
+  if not isinstance(node, ast.Dict) or init is None:
+    return []
+  a = init.node.args
+  names = [x.arg for x in a.args][1:]
+  defaults = dict(zip(names[len(names) - len(a.defaults):], a.defaults))
+  w = sym.Walker(repo, init)
+  w.run()
+  sets = {}
+  for e in w.events:
+    if e.kind == "setattr" and isinstance(e.data["value"], Poly) and repr(as_poly(e.data["base"])) == "param('self')":
+      sets[e.data["attr"]] = e.data["value"]
+  out = []
+  for k, v in zip(node.keys, node.values):
+    if not (isinstance(k, ast.Constant) and isinstance(v, ast.Call) and isinstance(v.func, ast.Name) and v.func.id == c.name):
+      continue
+    given = dict(defaults)
+    for nm, x in zip(names, v.args):
+      given[nm] = x
+    for kw in v.keywords:
+      given[kw.arg] = kw.value
+    vals = {}
+    for nm, x in given.items():
+      try:
+        fv = fold.try_fold(x)
+      except Exception:
+        fv = None
+      if isinstance(fv, int) and not isinstance(fv, bool):
+        vals[nm] = fv
+    attrs = {}
+    for at, val in sets.items():
+      p_ = val
+      for nm, iv in vals.items():
+        p_ = p_.deep_subst(Atom("param", nm), Poly.const(iv))
+      p_ = sym.rebuild(p_)
+      if p_.as_int() is not None:
+        attrs[at] = p_.as_int()
+    out.append((k.value, attrs))
+  return out
+
+
 def rule_width(ctx, bodies):
   R = "R-C20-WIDTH"
   total = 0
@@ -64,6 +109,25 @@ def rule_width(ctx, bodies):
       continue
     unknown = [r for r in res if r["ok"] is None]
     bad = [r for r in res if r["ok"] is False]
+    if unknown and not bad:
+      # the bound depends on how the instance was constructed: decide it for every instance of this class in the registry
+      insts = instances(ctx.repo, c)
+      if insts:
+        still = []
+        for nm, attrs in insts:
+          extra = set()
+          for _ in range(3):
+            res_i, _w = bitwidth.analyse(ctx.repo, f, inst=attrs, extra_moduli=extra)
+            need = {int(m_.group(1)) for r in res_i if r["ok"] is None for m_ in [re.search(r"needs residues modulo (\d+)", r["detail"])] if m_}
+            if not need or need <= extra:
+              break
+            extra |= need
+          total += len(res_i)
+          for r in res_i:
+            r["construct"] = "%s [RNGS[%r]: %s]" % (r["construct"], nm, ", ".join("%s=%d" % kv for kv in sorted(attrs.items()) if kv[1] < 2**16))
+          still += [r for r in res_i if r["ok"] is None]
+          bad += [r for r in res_i if r["ok"] is False]
+        unknown = still
     if unknown:
       seen = set()
       for r in unknown:
